@@ -231,12 +231,13 @@ func (r *Report) Finish(c *Ctx, tier string, seed int, wall float64, verifDir, o
 		"checker_cmd":         fmt.Sprintf("/verif/bin/anndbcheck -repo %s -prop %s -tier %s", c.Repo, r.Prop, tier),
 		"trusted_base": []string{"go/types, go/ssa and callgraph/vta of golang.org/x/tools v0.29.0", "the rule templates in /verif/checker (Go source)",
 			"documented contracts of etcd/raft v3.3.19, Badger v2.0.3, container/heap, sort, sync, encoding/binary as read in the pinned sources"},
-		"explanation":   strings.Join(expl, "\n"),
-		"analysed":      c.Stats,
-		"information":   r.Info,
-		"exceptions":    r.Exception,
-		"exhaustive":    true,
-		"rules_applied": rules,
+		"explanation":      strings.Join(expl, "\n"),
+		"analysed":         c.Stats,
+		"information":      r.Info,
+		"alpha_normalised": c.Normalised,
+		"exceptions":       r.Exception,
+		"exhaustive":       true,
+		"rules_applied":    rules,
 	}
 	for k, v := range extra {
 		cov[k] = v
